@@ -352,6 +352,21 @@ func runFont(c *wk.Case) {
 		if where, msg := simgen.Fsck(w.Disk, scaler, nil); where != "" {
 			c.Fail("fsck", opName+"/"+where, "%s (map order %d)", msg, ord)
 		}
+		// the outline tables of the file's flavour come as a set: TrueType
+		// outlines are "glyf" plus "loca", CFF outlines are "CFF "
+		if dir, err := simgen.ParseDirectory(w.Disk); err == nil {
+			has := map[string]bool{}
+			for _, e := range dir.Entries {
+				has[e.Tag] = true
+			}
+			_, isGlyf := f.Outlines.(*glyf.Outlines)
+			switch {
+			case isGlyf && opName != "WriteOpenTypeCFFPDF" && (!has["glyf"] || !has["loca"]):
+				c.Fail("fsck", opName+"/outline-tables", "TrueType outlines, but the file has glyf=%v loca=%v", has["glyf"], has["loca"])
+			case !isGlyf && !has["CFF "]:
+				c.Fail("fsck", opName+"/outline-tables", "CFF outlines, but the file has no \"CFF \" table")
+			}
+		}
 		if oi == 0 {
 			first = w.Disk
 			readBack(c, opName, w.Disk, scaler, nil)
